@@ -1,0 +1,17 @@
+// +build verif
+
+package rockredis
+
+import "github.com/youzan/ZanRedisDB/engine"
+
+// VerifDefaultBatchPending reports the number of operations sitting in the
+// store's shared default write batch. Only compiled with the verif build tag.
+func (r *RockDB) VerifDefaultBatchPending() int { return engine.VerifBatchPending(r.wb) }
+
+// VerifIsBatching reports whether a multi-command batch is open.
+func (r *RockDB) VerifIsBatching() bool { return r.isBatching == 1 }
+
+// VerifFlushHLL writes the dirty hyperloglog cache items to the engine now
+// (production does it when a snapshot is taken, on eviction and on close). The
+// caller must make sure the apply loop is idle.
+func (r *RockDB) VerifFlushHLL() { r.hllCache.Flush() }
